@@ -58,6 +58,10 @@ def select_harnesses(plan, tier, substr):
         t = h.get("tier", "quick")
         if tier == "quick" and t != "quick":
             continue
+        # "heavy": harnesses that did not finish within this machine's time/memory budget when measured;
+        # they are kept (and selectable with --tier heavy or --harness) but are not part of a registered tier
+        if tier == "thorough" and t == "heavy" and not substr:
+            continue
         if substr and substr not in h["name"]:
             continue
         out.append(h)
@@ -148,6 +152,33 @@ def apply_transforms(plan, repo, hdir):
                 raise Inconclusive("source transform demo_scaled_buffers: line %r not found exactly once" % o)
             open(p, "w").write(s.replace(o, n))
             done.append("demo/src/format.rs: MAX_SNAPSHOT_SIZE 65536 -> 128 (buffer sizes of the demo writer/reader; scratch copy only)")
+        elif t == "storage_inline_containers":
+            # C13: VecDeque<StoredSnap> / Vec<Snap> of snapshot/src/storage.rs replaced by inline
+            # fixed-capacity models (harness/shim/shim_deque.rs), mounted inside crate::verif_shim
+            sp = os.path.join(hdir, "shim_btree.rs")
+            open(sp, "a").write("\n" + open(os.path.join(hdir, "shim_deque.rs")).read())
+            p = os.path.join(repo, "snapshot", "src", "storage.rs")
+            s = open(p).read()
+            for o, n in [("use std::collections::VecDeque;\n", "use crate::verif_shim::VecDeque;\n"),
+                         ("    free: Vec<Snap>,\n", "    free: crate::verif_shim::SVec<Snap>,\n")]:
+                if s.count(o) != 1:
+                    raise Inconclusive("source transform storage_inline_containers: line %r not found exactly once" % o)
+                s = s.replace(o, n)
+            open(p, "w").write(s)
+            done.append("snapshot/src/storage.rs: VecDeque<StoredSnap> and Vec<Snap> -> crate::verif_shim::{VecDeque,SVec} (inline fixed-capacity models, capacity 4); scratch copy only")
+        elif t == "net_inline_resend_queue":
+            # the resend queue (VecDeque<ResendChunk>, 2 KiB per element, heap-backed) of both
+            # connection variants replaced by the inline fixed-capacity deque model (capacity 4)
+            lp = os.path.join(repo, "net", "src", "lib.rs")
+            open(lp, "a").write('\n#[cfg(kani)]\nmod verif_shim {\n    include!(concat!(env!("LIBTW2_VERIF_HARNESS"), "/shim_deque.rs"));\n}\n')
+            for fn in ("connection.rs", "connection7.rs"):
+                p = os.path.join(repo, "net", "src", fn)
+                s = open(p).read()
+                o = "use std::collections::VecDeque;\n"
+                if s.count(o) < 1:
+                    raise Inconclusive("source transform net_inline_resend_queue: %r not found in %s" % (o, fn))
+                open(p, "w").write(s.replace(o, "use crate::verif_shim::VecDeque;\n", 1))
+            done.append("net/src/connection{,7}.rs: VecDeque<ResendChunk> -> crate::verif_shim::VecDeque (inline fixed-capacity model, capacity 4; module mounted in the scratch copy of net/src/lib.rs); scratch copy only")
         elif t == "shim_cap_1":
             # container model with capacity 1 (C13: the world per tick is at most one item, a delta has
             # at most one update or one deletion): Snap/Delta values shrink to a few words
@@ -775,7 +806,7 @@ def merge_exit(a, b):
 def main():
     ap = argparse.ArgumentParser()
     ap.add_argument("property")
-    ap.add_argument("--tier", default=os.environ.get("VERIF_TIER", "quick"), choices=["quick", "thorough"])
+    ap.add_argument("--tier", default=os.environ.get("VERIF_TIER", "quick"), choices=["quick", "thorough", "heavy"])
     ap.add_argument("--harness", default=None, help="only harnesses whose name contains this")
     ap.add_argument("--replay", default=None, help="re-run a recorded counterexample")
     ap.add_argument("--keep", action="store_true", help="keep the scratch copy")
@@ -790,7 +821,7 @@ def main():
     # regular runs); such runs never write evidence
     suffix = os.environ.get("VERIF_TAG_SUFFIX", "")
     tag = (args.plan or pid) + suffix
-    if args.plan or suffix:
+    if args.plan or suffix or args.tier == "heavy":
         args.no_evidence = True
     only = args.harness
     if args.replay:
